@@ -30,12 +30,33 @@ class P(b1.Plugin):
             f = gen.Field(gen.FIELD_NAMES[j], ty)
             f.ty_src = ty
             fields.append(f)
-        # a byte-array view to initialise and read every byte
-        raw = gen.Field("raw", "[u8; %d]" % size)
-        raw.ty_src = raw.ty
-        fields.insert(rng.randrange(len(fields) + 1), raw)
+        padded = not generic and rng.random() < 0.3
+        if padded:
+            # bytes behind the largest field: an odd-sized byte array next to an aligned scalar under repr(C), or a lone small
+            # field under repr(align(..)); size_of::<Self>() exceeds every field's size
+            if rng.random() < 0.6:
+                al, sc = rng.choice([(2, "u16"), (4, "u32"), (4, "f32"), (8, "u64"), (2, "[u16; 2]")])
+                k = rng.choice([x for x in (3, 5, 6, 7, 9, 10, 11, 13) if x % al != 0 and x > {"u16": 2, "u32": 4, "f32": 4, "u64": 8, "[u16; 2]": 4}[sc]])
+                fields = [gen.Field("a", "[u8; %d]" % k), gen.Field("b", sc)]
+                rng.shuffle(fields)
+                size = (k + al - 1) // al * al
+                td.attr_src = ["#[repr(C)]"]
+            else:
+                al = rng.choice([2, 4, 8, 16])
+                ty, fs = rng.choice([("u8", 1), ("[u8; 3]", 3), ("u16", 2), ("[u8; 1]", 1)])
+                fields = [gen.Field("a", ty)]
+                size = (max(fs, 1) + al - 1) // al * al
+                td.attr_src = [rng.choice(["#[repr(C, align(%d))]", "#[repr(align(%d))]"]) % al]
+            for f in fields:
+                f.ty_src = f.ty
+        else:
+            # a byte-array field that covers every byte
+            raw = gen.Field("raw", "[u8; %d]" % size)
+            raw.ty_src = raw.ty
+            fields.insert(rng.randrange(len(fields) + 1), raw)
         td.variants = [gen.Variant("", "named", fields)]
         td.size = size
+        td.padded = padded
         td.generic = generic
         td.generic_where = generic and rng.random() < 0.5
         if generic:
@@ -71,12 +92,19 @@ class P(b1.Plugin):
         for _ in range(5):
             pats.append([rng.choice(PATTERNS) for _ in range(size)])
         pats.append(list(pats[0]))
+        last = list(pats[0])
+        last[-1] ^= 0x55                       # differs from the first pattern in the last byte only (a padding byte, if any)
+        pats.append(last)
         ty = td.name + ("::<%s>" % td.generic_arg if td.generic else "")
         tyt = td.name + ("<%s>" % td.generic_arg if td.generic else "")
-        items = ", ".join("%s { raw: %s }" % (ty, p) for p in pats)
+        arrs = ", ".join("[%s]" % ", ".join(str(b) for b in p) for p in pats)
         return f'''
-        let vs: Vec<{tyt}> = vec![{items}];
-        let by = |x: &{tyt}| -> Vec<usize> {{ unsafe {{ x.raw.iter().map(|b| *b as usize).collect() }} }};
+        const _: () = assert!(core::mem::size_of::<{tyt}>() == {size});
+        let pats: Vec<[u8; {size}]> = vec![{arrs}];
+        let mut vs: Vec<{tyt}> = pats.iter().map(|_| unsafe {{ core::mem::zeroed::<{tyt}>() }}).collect();
+        // every byte of the value, those behind the largest field included, is written in place and read in place
+        for (v, p) in vs.iter_mut().zip(pats.iter()) {{ unsafe {{ core::ptr::copy_nonoverlapping(p.as_ptr(), v as *mut {tyt} as *mut u8, {size}); }} }}
+        let by = |x: &{tyt}| -> Vec<usize> {{ unsafe {{ core::slice::from_raw_parts(x as *const {tyt} as *const u8, {size}).iter().map(|b| *b as usize).collect() }} }};
         for a in vs.iter() {{
             println!("[\\"uhash\\",{td.id},{{}},{{}}]", ju(&by(a)), js(&rec(a)));
             println!("[\\"udbg\\",{td.id},{{}},false,{{}}]", ju(&by(a)), jstr(&format!("{{:?}}", a)));
